@@ -206,6 +206,11 @@ func (c11) Run(c *Ctx, i int) CaseResult {
 			}
 		}
 	}
+	if len(res.Fails) == 0 {
+		// one plan list answering requests that differ in operation name and in which variables they supply
+		ts := reuseTemplatesFor()
+		res.Fails = append(res.Fails, ReuseCheck(c, c.Rand(i+81000000), ts[i%len(ts)], "L0.reuse")...)
+	}
 	deps := strings.Count(before, "\n1|")
 	res.Nontrivial = deps > 0
 	res.Counters = map[string]int{"executions": len(reqs), "outbound_calls": ncalls}
